@@ -41,12 +41,21 @@ func runInterleaved(tag string, frames []Frame, steps int, next func(step int, p
 			break
 		}
 		r.Prep(o)
-		out := r.Exec(*o)
+		out, hung := r.execGuard(*o)
+		if hung {
+			nr := make([]int64, len(cur))
+			for i, f := range cur {
+				nr[i] = int64(f.nrows())
+			}
+			h.Steps = append(h.Steps, StepObs{Op: *o, Out: out, Pool: cur, Nrows: nr})
+			break
+		}
 		pool, nrows := r.snapshot()
 		h.Steps = append(h.Steps, StepObs{Op: *o, Out: out, Pool: pool, Nrows: nrows})
 		cur = pool
 	}
 	r.buildOracles(&h)
+	r.cleanup()
 	return h
 }
 
